@@ -10,6 +10,7 @@ import (
 
 	"verif/harness/core"
 	"verif/harness/plugin"
+	"verif/harness/rapidx"
 	"verif/harness/schema"
 )
 
@@ -95,7 +96,7 @@ func runC12(c *core.Ctx) error {
 				continue
 			}
 			var last *c12Case
-			res := core.RapidCheck("C12", perCell, uint64(c.SubSeed(cell)), 30*time.Second, func(t *rapid.T) {
+			res := rapidx.Check("C12", perCell, uint64(c.SubSeed(cell)), 30*time.Second, func(t *rapid.T) {
 				s := schema.Generate(t, prof, "v0001")
 				// converse on the base schema
 				for _, p := range plugin.All {
